@@ -361,7 +361,7 @@ Section CPSEL.
   Variable mint mv : Z.
 
   Definition stone_sel (s : ref * list (Z * Z)) : bool :=
-    keep (fst s) && existsb (fun iv => mint <=? snd iv) (snd s).
+    keep (fst s) && existsb (fun iv => keep_t (snd iv) mint) (snd s).
 
   Definition tag_rec (r : record) : list (atom * bool) :=
     match r with
@@ -407,8 +407,8 @@ Section CPSEL.
   Proof.
     destruct r; simpl; auto.
     - rewrite selected_tag. unfold cp_series. destruct (filter _ l); auto.
-    - rewrite selected_tag. unfold cp_samples. destruct (filter _ l); auto.
-    - rewrite selected_tag. unfold cp_samples. destruct (filter _ l); auto.
+    - rewrite selected_tag. unfold cp_samples, keep_t. destruct (filter _ l); auto.
+    - rewrite selected_tag. unfold cp_samples, keep_t. destruct (filter _ l); auto.
     - assert (E : selected (flat_map (fun s => map (fun a => (a, stone_sel s)) (stone_atoms s)) l) =
                   flat_map stone_atoms (cp_stones keep mint l)).
       { induction l as [|s l IH]; simpl; auto. rewrite selected_app, IH.
@@ -635,15 +635,15 @@ Section PREC.
     destruct r; cbn [cp_rec]; try discriminate.
     - destruct (cp_series keep l); try discriminate. intros E; inversion E; subst. cbn [rec_refs_at]. tauto.
     - destruct (cp_samples mint l) eqn:F; try discriminate. intros E; inversion E; subst; clear E.
-      rewrite <- F. cbn [rec_refs_at]. unfold cp_samples.
+      rewrite <- F. cbn [rec_refs_at]. unfold cp_samples, keep_t.
       rewrite !in_map_iff. intros [y [E1 H]]. exists y. split; auto.
       apply filter_In in H. destruct H as [H H2]. apply filter_In in H. apply filter_In. tauto.
     - destruct (cp_samples mint l) eqn:F; try discriminate. intros E; inversion E; subst; clear E.
-      rewrite <- F. cbn [rec_refs_at]. unfold cp_samples.
+      rewrite <- F. cbn [rec_refs_at]. unfold cp_samples, keep_t.
       rewrite !in_map_iff. intros [y [E1 H]]. exists y. split; auto.
       apply filter_In in H. destruct H as [H H2]. apply filter_In in H. apply filter_In. tauto.
     - destruct (cp_stones keep mint l) eqn:F; try discriminate. intros E; inversion E; subst; clear E.
-      rewrite <- F. cbn [rec_refs_at]. unfold cp_stones.
+      rewrite <- F. cbn [rec_refs_at]. unfold cp_stones, keep_t.
       rewrite !in_map_iff. intros [y [E1 H]]. exists y. split; auto.
       apply filter_In in H. destruct H as [H H2]. apply filter_In in H. apply filter_In. tauto.
   Qed.
